@@ -219,6 +219,11 @@ class SpecMixin:
     def spec_as_row(self, node, st, ctx):
         return SV(ROW, Val.ref(box(self.ev(node.args[0], st, ctx))))
 
+    def spec_is_dictref(self, node, st, ctx):
+        """a row value that is a reference to a dictionary (isinstance(v, dict))"""
+        v = box(self.ev(node.args[0], st, ctx))
+        return mk_bool(z3.And(Val.is_VRef(v), self.uf("ref_is_dict", [I], B)(Val.ref(v))))
+
     def spec_as_obj_RdMol(self, node, st, ctx):
         return SV(Obj("RdMol"), Val.ref(box(self.ev(node.args[0], st, ctx))))
 
